@@ -65,7 +65,7 @@ CFG = {
         "shape_bounds": {"members": 3, "polygons": 3, "rings": 2, "points": 4, "nonuniform": False},
         # deviation bound K of a shape by its number of leaves: first matching row
         # (max_leaves, K, max structural ops)
-        "levels": [(12, 2, 2), (24, 2, 1), (10 ** 9, 1, 1)],
+        "levels": [(8, 2, 2), (16, 2, 1), (10 ** 9, 1, 1)],
         "sub_alphabet": ALPHA_F, "sub_alphabet_deep": ALPHA_F,
         "tag_pool_flat_len": 2, "blocks": {"flat": 8, "wrap": 4, "nested": 80, "tags": 4},
     },
